@@ -827,3 +827,16 @@ Proof.
   intros H. apply check_sound in H. destruct H as [d [Hd H]]. exists d. split; [assumption|].
   apply -> derivable_strip. assumption.
 Qed.
+
+(* ---------------- the deadline oracle of a scripted clock ---------------- *)
+Lemma hit_of_clock_spec ms clock k :
+  hit_of_clock ms clock k = true <-> (clock (S k) > clock 0%nat + ms * 1000000)%Z.
+Proof. unfold hit_of_clock. rewrite Z.gtb_ltb, Z.ltb_lt. lia. Qed.
+
+Theorem no_deadline_hit ms clock :
+  (forall k, (clock (S k) <= clock 0%nat + ms * 1000000)%Z) ->
+  forall k, hit_of_clock ms clock k = false.
+Proof.
+  intros H k. destruct (hit_of_clock ms clock k) eqn:E; [|reflexivity].
+  apply hit_of_clock_spec in E. specialize (H k). lia.
+Qed.
